@@ -84,9 +84,6 @@ pub fn run(g: &Giant) -> Result<u64, (String, String)> {
         return Err(("same-matches".into(), format!("{:?}/{:?}: {k} matches, the slice search of the tail gives {}", g.spec.variant, g.method, want.len())));
     }
     let total = g.filler + g.tail.len() as u64;
-    if pulls.get() != total {
-        return Err(("once".into(), format!("{:?}/{:?}: iterator exhausted after pulling {} of {} bytes", g.spec.variant, g.method, pulls.get(), total)));
-    }
     Ok(total)
 }
 
